@@ -62,7 +62,7 @@ def menu(ent, case):
         site = fid[2:]
         return [m for m in e3.MENUS[site] if m != ent["val"]]
     if fid == "obj":
-        return ["target", "nan"]
+        return ["target", "target_eq", "nan"]
     if fid.startswith("con"):
         return [["feasible", 0], ["nan", 0]]
     if fid == "cb":
